@@ -196,13 +196,16 @@ def get_batch_ob(dim, cartesian, with_border, flag=None):
         F = 2 * dim
         t, x = arr("t", (bt,)), arr("x", (bx, dim))
         dx = arr("dx", ((1 if dim == 1 else bb), dim, F)) if with_border else None
+        MX, MB, MT = z3.Ints("cursor_after_inside_batch cursor_after_border_batch cursor_after_temporal_batch")
         rec = Rec("CubicMeshPDENonStatio", dict(temporal_batch_size=bt, omega_batch_size=bx,
                                                 omega_border_batch_size=(bb if with_border else None), dim=dim,
-                                                cartesian_product=flag))
-        # callees replaced by their contracts (C09): declared shape, arbitrary contents, the generator is returned
-        ex.contracts["CubicMeshPDEStatio.inside_batch"] = lambda ex_, fv, a, k, pc: [((fv.self_val, x), pc)]
-        ex.contracts["CubicMeshPDEStatio.border_batch"] = lambda ex_, fv, a, k, pc: [((fv.self_val, dx), pc)]
-        ex.contracts["CubicMeshPDENonStatio.temporal_batch"] = lambda ex_, fv, a, k, pc: [((fv.self_val, t), pc)]
+                                                cartesian_product=flag, curr_omega_idx=z3.Int("cx0"), curr_omega_border_idx=z3.Int("cb0"),
+                                                curr_time_idx=z3.Int("ct0")))
+        # callees replaced by their contracts (C09): declared shape, arbitrary contents; each returns the generator with *its
+        # own* cursor advanced (an unconstrained new value) and nothing else changed
+        ex.contracts["CubicMeshPDEStatio.inside_batch"] = lambda ex_, fv, a, k, pc: [((fv.self_val.replace(curr_omega_idx=MX), x), pc)]
+        ex.contracts["CubicMeshPDEStatio.border_batch"] = lambda ex_, fv, a, k, pc: [((fv.self_val.replace(curr_omega_border_idx=MB), dx), pc)]
+        ex.contracts["CubicMeshPDENonStatio.temporal_batch"] = lambda ex_, fv, a, k, pc: [((fv.self_val.replace(curr_time_idx=MT), t), pc)]
         outs = ex.call_method(rec, "get_batch")
         if any(o.kind != "return" for o in outs):
             bad_ = [o for o in outs if o.kind != "return"][0]
@@ -212,6 +215,10 @@ def get_batch_ob(dim, cartesian, with_border, flag=None):
             new, batch = o.value
             tx, tdx = batch.fields["times_x_inside_batch"], batch.fields["times_x_border_batch"]
             pre = [bt >= 1, bx >= 1, bb >= 1] + ([] if cartesian else [bt == bx] + ([bt == bb] if dim > 1 else []))
+            # the returned generator is the three consumers' updates composed, each store keeping its own cursor
+            goals["cursors_are_the_consumers_own"] = z3.And(
+                zint(new.fields["curr_omega_idx"]) == MX, zint(new.fields["curr_time_idx"]) == MT,
+                *([zint(new.fields["curr_omega_border_idx"]) == MB] if with_border else []))
             idx = [i_ >= 0, i_ < bt, j_ >= 0, c_ >= 0, c_ < 1 + dim, f_ >= 0, f_ < F]
             if cartesian:
                 goals["interior_shape"] = z3.And(zint(tx.shape[0]) == bt * bx, zint(tx.shape[1]) == 1 + dim)
